@@ -35,6 +35,23 @@ P("C15", [("V7", None)],
   "Assumed: ena's snapshot/rollback/commit contract; the unifier keeps ena's snapshot stack balanced; Vec::clone spec of vstd.",
   "contract-based deductive verification: Verus on mechanically extracted function text, callee contracts + havoc")
 
+P("C19", [("K13", None), ("K13O", None)],
+  "model_checking",
+  "Kani on the real set_priorities over real petgraph forests: for every labelled DAG on <= 3 impls (thorough: selected 4-impl DAGs) no panic, every impl gets a priority, "
+  "and priorities strictly increase along every specialization edge; SpecializationPriorities::insert is replaced by its contract there (kani::stub) and the contract is proved against the "
+  "real IndexMap in the thorough tier only (hashbrown costs CBMC minutes). BOUNDED in the number of impls (exhaustive below the bound). "
+  "The genuine defect this found (3-impl chain panicked) is repaired in /repo by commit cc02e05.",
+  "Assumed: the forest handed to set_priorities is a DAG with edges from less to more special impls (the disjoint/specializes solver queries are not verified); petgraph and indexmap as compiled by Kani.",
+  "contract-based verification with Kani: harness contracts + contract stub (kani::stub) for the callee, graphs enumerated concretely")
+
+P("C05", [("V10", None), ("V3", None)],
+  "proof",
+  "Partial (function-level links): Verus proves on the verbatim text that exactly the goals `T: AutoTrait`, `T: #[coinductive] Trait`, `WellFormed(T: Trait)` and universal "
+  "quantifications of those are treated coinductively (every other goal kind is inductive), that coinductive goals start the fixed-point iteration at the top "
+  "(Unique, trivially true, over the goal's own binders) and inductive ones at NoSolution, and that iteration stops only when the answer repeats or is ambiguous. Unbounded.",
+  "Not reached: push_auto_trait_impls / constituent types (iterator+closure code), delayed subgoals in the SLG engine, cache rollback. Assumed: finite goals, trait flags abstract.",
+  "contract-based deductive verification: Verus on mechanically extracted function text")
+
 # ---- not (yet) claimed
 NOT_APPLICABLE['C02'] = "completeness of proof search within size limits is a whole-search statement; the mechanisms named in the anchors (on_no_strands_left, clear_strands_after_cycle, solve_new_subgoal, Fulfill::fulfill) log, use FxHashMap tables and custom Index impls (DESIGN P5/P6/P10) and none has a per-function contract implying 'never Ambiguous'"
 NOT_APPLICABLE['C04'] = 'relational property between two whole solvers; no function has a contract that mentions both'
